@@ -290,14 +290,23 @@ def rule_handlers(ctx, tu):
     ctx.floor(R, 10)
 
 
+def pya_atoms(t):
+    from .. import pya
+    return pya.atoms(t, True)
+
+
 def rule_tmax(ctx, py):
     R = "C09.TMAX"
     f = py.fn("rdscript.RDScript.t_max")
     ok = False
+    from .. import pysym
     for n in ast.walk(f):
-        if isinstance(n, ast.If) and "== 'default'" in pyfe.src(n.test):
-            r = n.body[0]
-            ok = isinstance(r, ast.Return) and pyfe.src(r.value).replace(" ", "") == "self.t_sample.get_at(len(self.t_sample)-1)"
+        if isinstance(n, ast.If) and "'default'" in pyfe.src(n.test) and any(p_ for a_, p_ in pya_atoms(n.test)):
+            rets = [x for b in n.body for x in ast.walk(b) if isinstance(x, ast.Return) and x.value is not None]
+            if len(rets) == 1:
+                v = pysym.isrc(rets[0].value, f).replace(" ", "")
+                ok = v in ("self.t_sample.get_at(len(self.t_sample)-1)", "self.t_sample.get_at(-1)", "self.t_sample[-1]",
+                           "self.t_sample[len(self.t_sample)-1]", "self._t_sample.get_at(len(self._t_sample)-1)")
     ctx.check(ok, R, f, f._qual, "t_max 'default' = last requested sample time", "", "default t_max is not the last element "
               "of t_sample")
     ctx.floor(R, 1)
